@@ -77,8 +77,9 @@ void lp_polynomial_heap_extend(lp_polynomial_heap_t *heap) {
 }
 
 static
-void lp_polynomial_heap_heapify_up(lp_polynomial_heap_t *heap) {
-  for (size_t pos = heap->size;
+void lp_polynomial_heap_heapify_up(lp_polynomial_heap_t *heap, size_t pos) {
+  // pos is the 1-based position of the element to move up
+  for (;
        pos > 1 && HEAP_CMP(heap, pos / 2, pos) < 0;
        pos /= 2) {
     // if data[pos] is smaller or equal than data[parent] swap
@@ -116,7 +117,7 @@ void lp_polynomial_heap_insert(lp_polynomial_heap_t* heap, lp_polynomial_t* p) {
     lp_polynomial_heap_extend(heap);
   }
   heap->data[heap->size - 1] = p;
-  lp_polynomial_heap_heapify_up(heap);
+  lp_polynomial_heap_heapify_up(heap, heap->size);
 }
 
 void lp_polynomial_heap_push(lp_polynomial_heap_t* heap, const lp_polynomial_t* p) {
@@ -154,12 +155,23 @@ lp_polynomial_t* lp_polynomial_heap_pop(lp_polynomial_heap_t* heap) {
 
 int lp_polynomial_heap_remove(lp_polynomial_heap_t* heap, const lp_polynomial_t *p){
   int result = 0;
-  for (size_t i = 0; i < heap->size; ++i) {
+  for (size_t i = 0; i < heap->size; ) {
     if (lp_polynomial_eq(p, heap->data[i])) {
-      heap->data[i] = heap->data[--heap->size];
-      lp_polynomial_heap_heapify_down(heap, i);
+      // park the removed element behind the end (deleted below: p may point into the heap)
+      -- heap->size;
+      SWAP(heap->data[i], heap->data[heap->size]);
+      if (i < heap->size) {
+        // the element moved in may have to go down or up; then look at slot i again
+        lp_polynomial_heap_heapify_down(heap, i);
+        lp_polynomial_heap_heapify_up(heap, i + 1);
+      }
       result++;
+    } else {
+      ++i;
     }
+  }
+  for (int k = 0; k < result; ++k) {
+    lp_polynomial_delete(heap->data[heap->size + k]);
   }
   return result;
 }
